@@ -261,7 +261,7 @@ Definition first_url (base : string) (q : query) : string :=
 (* the format both utils functions are expected to use; rfc1123 / parse_rfc1123 below implement it *)
 Definition rfc1123_format : string := "%a, %d %b %Y %H:%M:%S GMT".
 
-Inductive outcome := Done | Raised (e : string).
+Inductive outcome := Done | Raised (e : string) | Suspended.   (* Suspended: the consumer stopped calling next() *)
 
 Record trace := {
   t_requests : list string;          (* URLs passed to requests.get, in order *)
@@ -311,6 +311,75 @@ Definition get_sessions (tz : tzdb) (base : string) (q : query) (responses : lis
     end
   else {| t_requests := []; t_yielded := []; t_outcome := Raised K_site_error |}.
 
+(* ---- lazy consumption: the consumer calls next() at most k times, then closes the generator.
+   Nothing runs before the first next() (not even the site check), and after the k-th yield the generator is
+   suspended at its `yield`: no further document is converted and no further request is made. *)
+Fixpoint items_k (tz : tzdb) (items : list doc) (k : nat) : list doc * option string * nat :=
+  match k with
+  | O => ([], None, O)
+  | S k' =>
+      match items with
+      | [] => ([], None, k)
+      | d :: r =>
+          match parse_dates tz d with
+          | Err e => ([], Some e, k)
+          | Ok d' => let '(ys, e, kk) := items_k tz r k' in (d' :: ys, e, kk)
+          end
+      end
+  end.
+
+Fixpoint consume_k (tz : tzdb) (base : string) (pg : page) (rest : list page) (k : nat) : trace :=
+  let '(ys, e, kk) := items_k tz (p_items pg) k in
+  match e with
+  | Some err => {| t_requests := []; t_yielded := ys; t_outcome := Raised err |}
+  | None =>
+      match kk with
+      | O => {| t_requests := []; t_yielded := ys; t_outcome := Suspended |}
+      | S _ =>
+          match p_next pg with
+          | None => {| t_requests := []; t_yielded := ys; t_outcome := Done |}
+          | Some href =>
+              match rest with
+              | [] => {| t_requests := [base ++ href]; t_yielded := ys; t_outcome := Raised "transport" |}
+              | pg' :: rest' =>
+                  let tr := consume_k tz base pg' rest' kk in
+                  {| t_requests := (base ++ href) :: t_requests tr; t_yielded := ys ++ t_yielded tr;
+                     t_outcome := t_outcome tr |}
+              end
+          end
+      end
+  end.
+
+(* list(itertools.islice(client.get_sessions(...), k)) followed by close() *)
+Definition get_sessions_take (tz : tzdb) (base : string) (q : query) (responses : list page) (k : nat) : trace :=
+  match k with
+  | O => {| t_requests := []; t_yielded := []; t_outcome := Suspended |}
+  | S _ =>
+      if valid_site (q_site q) then
+        match responses with
+        | [] => {| t_requests := [first_url base q]; t_yielded := []; t_outcome := Raised "transport" |}
+        | pg :: rest =>
+            let tr := consume_k tz base pg rest k in
+            {| t_requests := first_url base q :: t_requests tr; t_yielded := t_yielded tr;
+               t_outcome := t_outcome tr |}
+        end
+      else {| t_requests := []; t_yielded := []; t_outcome := Raised K_site_error |}
+  end.
+
+Definition run_sessions (tz : tzdb) (base : string) (q : query) (responses : list page) (take : option nat) : trace :=
+  match take with None => get_sessions tz base q responses | Some k => get_sessions_take tz base q responses k end.
+
+(* ------------------------------------------------------------------ count_sessions *)
+(* requests.head(<base>sessions/<site>?[where=<cond>&]limit=1).headers["x-total-count"] *)
+Definition count_url (base site : string) (cond : option string) : string :=
+  base ++ K_endpoint ++ site ++ K_query_mark ++ join K_arg_sep (opt_arg K_arg_cond cond ++ ["limit=1"]).
+
+Definition count_sessions (base site : string) (cond : option string) (total : option string)
+  : list string * res string :=
+  if valid_site site
+  then ([count_url base site cond], match total with Some h => Ok h | None => Err "KeyError" end)
+  else ([], Err K_site_error).
+
 (* ------------------------------------------------------------------ get_sessions_by_time *)
 Definition time_cond (start stop : option aware) (min_energy : option string) : res string :=
   let part (op : string) (a : option aware) : res (list string) :=
@@ -328,10 +397,17 @@ Definition by_time_query (site : string) (start stop : option aware) (min_energy
                        q_timeseries := timeseries |}) (time_cond start stop min_energy).
 
 Definition get_sessions_by_time (tz : tzdb) (base site : string) (start stop : option aware)
-           (min_energy : option string) (timeseries : bool) (responses : list page) : trace :=
+           (min_energy : option string) (timeseries : bool) (responses : list page) (take : option nat) : trace :=
   match by_time_query site start stop min_energy timeseries with
-  | Err e => {| t_requests := []; t_yielded := []; t_outcome := Raised e |}
-  | Ok q => get_sessions tz base q responses
+  | Err e => {| t_requests := []; t_yielded := []; t_outcome := Raised e |}    (* raised by the call itself *)
+  | Ok q => run_sessions tz base q responses take
+  end.
+
+Definition count_sessions_by_time (base site : string) (start stop : option aware)
+           (min_energy : option string) (total : option string) : list string * res string :=
+  match time_cond start stop min_energy with
+  | Err e => ([], Err e)
+  | Ok c => count_sessions base site (Some c) total
   end.
 
 (* ------------------------------------------------------------------ specification vocabulary *)
@@ -399,6 +475,7 @@ Definition outcome_eqb (a b : outcome) : bool :=
   match a, b with
   | Done, Done => true
   | Raised x, Raised y => String.eqb x y
+  | Suspended, Suspended => true
   | _, _ => false
   end.
 
@@ -408,9 +485,14 @@ Definition trace_eqb (a b : trace) : bool :=
 
 Inductive c20case :=
 | CRun (tabs : list (string * list (Z * Z))) (base : string) (q : query) (responses : list page)
-       (expect : trace)
+       (take : option nat) (expect : trace)
 | CRunByTime (tabs : list (string * list (Z * Z))) (base site : string) (start stop : option aware)
-             (min_energy : option string) (timeseries : bool) (responses : list page) (expect : trace)
+             (min_energy : option string) (timeseries : bool) (responses : list page) (take : option nat) (expect : trace)
+| CCount (base site : string) (cond : option string) (total : option string)
+         (expect : list string * res string)
+| CCountByTime (base site : string) (start stop : option aware) (min_energy : option string)
+               (total : option string) (expect : list string * res string)
+| CParseDates (tabs : list (string * list (Z * Z))) (d : doc) (expect : res doc)
 | CHttpDate (a : aware) (expect : res string)
 | CParse (tabs : list (string * list (Z * Z))) (zname : string) (ds : string) (expect : res aware)
 | CRoundTrip (tabs : list (string * list (Z * Z))) (zname : string) (a : aware) (expect : res aware).
@@ -419,9 +501,16 @@ Definition res_aware_eqb := res_eqb aware_eqb.
 
 Definition check_c20 (c : c20case) : bool :=
   match c with
-  | CRun tabs base q rs e => trace_eqb (get_sessions (tz_of_tables tabs) base q rs) e
-  | CRunByTime tabs base site st en me ts rs e =>
-      trace_eqb (get_sessions_by_time (tz_of_tables tabs) base site st en me ts rs) e
+  | CRun tabs base q rs take e => trace_eqb (run_sessions (tz_of_tables tabs) base q rs take) e
+  | CRunByTime tabs base site st en me ts rs take e =>
+      trace_eqb (get_sessions_by_time (tz_of_tables tabs) base site st en me ts rs take) e
+  | CCount base site cond total e =>
+      let r := count_sessions base site cond total in
+      list_eqb String.eqb (fst r) (fst e) && res_eqb String.eqb (snd r) (snd e)
+  | CCountByTime base site st en me total e =>
+      let r := count_sessions_by_time base site st en me total in
+      list_eqb String.eqb (fst r) (fst e) && res_eqb String.eqb (snd r) (snd e)
+  | CParseDates tabs d e => res_eqb doc_eqb (parse_dates (tz_of_tables tabs) d) e
   | CHttpDate a e => res_eqb String.eqb (http_date a) e
   | CParse tabs zn ds e =>
       match tz_of_tables tabs zn with
